@@ -89,7 +89,8 @@ C08 = Prop(
          "operator%, args(...), str(), conversion and operator<<; typed arguments (int, long long, char, double, "
          "std::string, const char*) in all pairs and sampled triples; exception messages through the constructor and "
          "raise(); seeded random formats of length <=30 incl. NUL/0xff. Non-trivial: the format has at least one "
-         "placeholder (str) / more than one argument (exception message). Distinct = distinct case line.",
+         "placeholder (str) / more than one argument (exception message). Distinct = distinct case line. " \
+                "Typed arguments include user types whose inserters leave sticky state (hex/showbase; fixed/precision 2) followed by numbers (format family only: an exception message is one stream), and doubles whose 6-digit text differs from their 17-digit text (0.1, 1e+06, 0.333333, -2.7) in both families.",
     harness=HARNESS, search=lambda dis, rng: gen_c08("thorough", rng),
     theorem_hint="NitroVerif.Props.C08.{str_spec,arity_exact,no_rescan,more_args_raise,fewer_args_raise,"
                  "make_string_concat,pieces_glue,pieces_clean}",
